@@ -9,6 +9,7 @@ import (
 	"fmt"
 	"sort"
 	"sync"
+	"time"
 
 	txfile "github.com/elastic/go-txfile"
 	"github.com/elastic/go-txfile/txerr"
@@ -631,6 +632,20 @@ func (e *Engine) apply(op Op) Result {
 		}
 		return Result{}
 
+	case "drain":
+		// wait until the background writer has executed everything scheduled so far (the disk log does not
+		// grow any more): the next request reaches an idle writer
+		last, stable := e.Disk.LogLen(), 0
+		for i := 0; i < 200 && stable < 4; i++ {
+			time.Sleep(500 * time.Microsecond)
+			if n := e.Disk.LogLen(); n == last {
+				stable++
+			} else {
+				last, stable = n, 0
+			}
+		}
+		return Result{}
+
 	case "checkpoint":
 		if !needTx() {
 			return Result{Skipped: true}
@@ -711,6 +726,7 @@ func (e *Engine) apply(op Op) Result {
 		e.resetTx()
 		e.Committed.Txid = e.headerTxid()
 		e.History = append(e.History, e.Committed.Clone())
+		e.CheckAllocator("after commit")
 		return Result{}
 
 	case "rollback", "close":
@@ -888,6 +904,64 @@ func (e *Engine) checkFresh(id uint64) {
 				e.fail("allocated page %d is an overwrite page of the committed state", id)
 			}
 		}
+		for _, r := range s.MetaFree {
+			if id >= r.ID && id < r.ID+uint64(r.Count) {
+				e.fail("allocated page %d is a free page of the meta area", id)
+			}
+		}
+	}
+}
+
+// CheckAllocator checks, with no write transaction open, that the allocator's view partitions the file:
+// the two free lists are disjoint, lie below their end markers, and contain no page that is in use (live
+// data page, free-list page, mapping page, overwrite page).
+func (e *Engine) CheckAllocator(what string) {
+	if e.File == nil || e.Tx != nil || e.Dead {
+		return
+	}
+	s := txfile.VerifSnapshot(e.File)
+	free := map[uint64]string{}
+	add := func(l []txfile.VerifRegion, name string, end uint64) {
+		for _, r := range l {
+			for id := r.ID; id < r.ID+uint64(r.Count); id++ {
+				if other, dup := free[id]; dup {
+					e.fail("allocator-partition: %s: page %d is in the %s free list and in the %s free list", what, id, other, name)
+					return
+				}
+				free[id] = name
+				if id < 2 || id >= end {
+					e.fail("allocator-partition: %s: page %d of the %s free list is outside [2, %d)", what, id, name, end)
+					return
+				}
+			}
+		}
+	}
+	add(s.DataFree, "data", s.DataEnd)
+	metaEnd := s.MetaEnd
+	if s.DataEnd > metaEnd {
+		metaEnd = s.DataEnd
+	}
+	add(s.MetaFree, "meta", metaEnd)
+	used := func(id uint64, as string) {
+		if name, isFree := free[id]; isFree {
+			e.fail("allocator-partition: %s: page %d is %s and at the same time in the %s free list", what, id, as, name)
+		}
+	}
+	for id := range e.Committed.Pages {
+		used(id, "a live data page")
+	}
+	for _, r := range s.FreelistPages {
+		for id := r.ID; id < r.ID+uint64(r.Count); id++ {
+			used(id, "a free-list page")
+		}
+	}
+	for _, r := range s.WalMetaPages {
+		for id := r.ID; id < r.ID+uint64(r.Count); id++ {
+			used(id, "a mapping page")
+		}
+	}
+	for _, w := range s.WalMapping {
+		used(w, "an overwrite page")
 	}
 }
 
